@@ -20,6 +20,9 @@
  *   npathp <value hex|~> <input>        lyd_new_path(copy of the health tree, ctx, input, value, LYD_NEW_PATH_UPDATE, &node);
  *                                       on error the copy must print as before
  *   value <leaf> <input>                lyd_value_validate(ctx, /rb:types/<leaf>, input, len, NULL | types node, ...)
+ *   api <kind> <args>                   a tree with degenerate but legal content built by lyd_new_any / lyd_new_opaq(2) / lyd_new_attr(2) /
+ *                                       lyd_new_term / lyd_new_meta / lyd_new_path / lyd_new_list, then lyd_print_mem in XML, JSON and LYB
+ *                                       (+ parsing each output back), lyd_dup_siblings, lyd_compare_siblings, free
  *   pattern <pattern> <input>           ly_pattern_match(ctx, pattern, input, 0, NULL)   (the pattern may be an R: text too)
  *
  * Around every case (see DESIGN C05 and tools/props/comps_robust.py):
@@ -30,7 +33,8 @@
  *   - the call; return code; on error: every output pointer is NULL (except the documented NETCONF/RESTCONF envelope tree),
  *     an error record with a message exists (not required for LY_ENOT / LY_ENOTFOUND / LY_EINCOMPLETE), the module list of
  *     the context (name, revision, implemented, latest-revision flag, enabled features) is what it was before the call; the
- *     dictionary of the context holds the same strings with the same reference counts as before the call; the log-location
+ *     dictionary of the context holds the same strings with the same reference counts as before the call, or else the
+ *     context is destroyed at once and no string may be reported `not freed` by ly_ctx_destroy(); the log-location
  *     stack of the thread is empty;
  *   - the light health workload is re-run and compared with the baseline; after a failed module load also the full one;
  *   - everything is freed; under ASan the leak checker runs after every case (__lsan_do_recoverable_leak_check) and a
@@ -366,6 +370,7 @@ struct shard {
     int dirty;
     unsigned cases;
     int blamed;                /* some case of this context already reported strings / memory it left behind */
+    int suspect;               /* the dictionary (strings or reference counts) differs after the last call: decided at destroy */
 };
 
 static uint64_t
@@ -620,7 +625,10 @@ shard_close(struct shard *S, int compare_fresh)
     notfreed_warn = 0;
     ly_ctx_destroy(S->ctx);
     S->ctx = NULL;
-    if (notfreed_warn) {
+    if (notfreed_warn && S->suspect) {
+        /* the last call changed the dictionary and these strings are still referenced now that everything is freed */
+        printf("!dict-strings-left=%d ", notfreed_warn);
+    } else if (notfreed_warn) {
         /* strings still referenced when the context is destroyed: a failure of its own only when no case of this context
          * was reported for leaving strings or memory behind (those are the cause, and they are reported precisely) */
         printf("%sctx-destroy-not-freed=%d ", S->blamed ? "" : "!", notfreed_warn);
@@ -1076,6 +1084,114 @@ run_case(struct shard *S, struct vcase *c, int nf)
                 rc = rc2;
             }
         }
+    } else if (!strcmp(entry, "api") && (nf >= 3)) {
+        /* trees with degenerate but legal content built through the API, then all three printers (+ parsing the output
+         * back), lyd_dup_siblings, lyd_compare_siblings, free: no crash and a defined return code */
+        const struct lys_module *rbm = ly_ctx_get_module_implemented(ctx, "rb");
+        const char *kind = c->f[2];
+        struct lyd_node *top = NULL, *tree = NULL, *n = NULL, *dup = NULL, *vtree = NULL, *back = NULL;
+        char *a[6] = {0}, *s = NULL;
+        int used_value = 0, i;
+        LY_ERR r;
+        static const LYD_FORMAT fmts[3] = {LYD_XML, LYD_JSON, LYD_LYB};
+
+        for (i = 0; (i < 6) && (3 + i < nf); i++) {
+            a[i] = strcmp(c->f[3 + i], "~") ? vunhex(c->f[3 + i], NULL) : NULL;
+        }
+        lyd_new_inner(NULL, rbm, "top", 0, &top);
+        tree = top;
+        ly_err_clean(ctx, NULL);
+        if (!strcmp(kind, "any") && (nf >= 7)) {
+            /* any <name> <value type> <value|~> <options> */
+            LYD_ANYDATA_VALUETYPE vt = (LYD_ANYDATA_VALUETYPE)atoi(c->f[4]);
+            uint32_t opts = (uint32_t)strtoul(c->f[6], NULL, 0);
+            const void *val = a[2];
+
+            if ((vt == LYD_ANYDATA_DATATREE) && a[2]) {
+                lyd_new_opaq(NULL, ctx, "x", a[2], NULL, "m", &vtree);
+                val = vtree;
+            }
+            rc = lyd_new_any(top, NULL, a[0], val, vt, opts, &n);
+            if (!rc && (opts & LYD_NEW_ANY_USE_VALUE)) {
+                used_value = 1;
+            }
+            if (used_value && (vt == LYD_ANYDATA_DATATREE)) {
+                vtree = NULL;
+            } else if (used_value) {
+                a[2] = NULL;
+            }
+        } else if (!strcmp(kind, "anycopy") && (nf >= 8)) {
+            /* anycopy <name> <first value type> <first value> <mode> <second value type> : node with a value, then
+             * lyd_any_copy_value(node, NULL, t2) (mode 0: only frees the value) or with a union holding NULL (mode 1) */
+            LYD_ANYDATA_VALUETYPE vt = (LYD_ANYDATA_VALUETYPE)atoi(c->f[4]), vt2 = (LYD_ANYDATA_VALUETYPE)atoi(c->f[7]);
+            union lyd_any_value uv;
+
+            memset(&uv, 0, sizeof uv);
+            rc = lyd_new_any(top, NULL, a[0], a[2], vt, 0, &n);
+            if (!rc && n) {
+                rc = lyd_any_copy_value(n, atoi(c->f[6]) ? &uv : NULL, vt2);
+            }
+        } else if (!strcmp(kind, "opaq") && (nf >= 8)) {
+            /* opaq <j|x> <name> <value> <prefix> <module name / namespace> */
+            if (c->f[3][0] == 'j') {
+                rc = lyd_new_opaq(top, ctx, a[1], a[2], a[3], a[4], &n);
+                if (!rc) {
+                    printf("attr=%d ", (int)lyd_new_attr(n, a[4], "at", a[2], NULL));
+                }
+            } else {
+                rc = lyd_new_opaq2(top, ctx, a[1], a[2], a[3], a[4], &n);
+                if (!rc) {
+                    printf("attr=%d ", (int)lyd_new_attr2(n, a[4], "at", a[2], NULL));
+                }
+            }
+        } else if (!strcmp(kind, "term") && (nf >= 6)) {
+            /* term <leaf of /rb:types> <value> <options> */
+            lyd_free_all(top);
+            top = NULL;
+            lyd_new_inner(NULL, rbm, "types", 0, &top);
+            tree = top;
+            rc = lyd_new_term(top, NULL, a[0], a[1], (uint32_t)strtoul(c->f[5], NULL, 0), &n);
+        } else if (!strcmp(kind, "meta") && (nf >= 5)) {
+            /* meta <annotation> <value> */
+            rc = lyd_new_meta(ctx, top, NULL, a[0], a[1], 0, NULL);
+        } else if (!strcmp(kind, "path") && (nf >= 5)) {
+            /* path <path> <value> : empty containers, lists, leaf-lists by lyd_new_path */
+            rc = lyd_new_path(top, ctx, a[0], a[1], 0, &n);
+        } else if (!strcmp(kind, "list") && (nf >= 5)) {
+            /* list <k1> <k2> : rb:top/pair */
+            rc = lyd_new_list(top, NULL, "pair", 0, &n, a[0], a[1]);
+        } else {
+            printf("?api-kind ");
+        }
+        printf("rc=%d ", (int)rc);
+        check_record(ctx, rc);
+        for (i = 0; tree && (i < 3); i++) {
+            s = NULL;
+            r = lyd_print_mem(&s, tree, fmts[i], LYD_PRINT_WITHSIBLINGS | LYD_PRINT_WD_ALL | LYD_PRINT_KEEPEMPTYCONT);
+            printf("p%d=%d ", i, (int)r);
+            if (!r && s) {
+                back = NULL;
+                r = lyd_parse_data_mem(ctx, s, fmts[i], LYD_PARSE_ONLY | LYD_PARSE_OPAQ, 0, &back);
+                printf("b%d=%d ", i, (int)r);
+                lyd_free_all(back);
+            }
+            free(s);
+        }
+        if (tree) {
+            r = lyd_dup_siblings(tree, NULL, LYD_DUP_RECURSIVE | LYD_DUP_WITH_FLAGS, &dup);
+            printf("dup=%d ", (int)r);
+            if (!r) {
+                printf("cmp=%d ", (int)lyd_compare_siblings(tree, dup, LYD_COMPARE_FULL_RECURSION | LYD_COMPARE_DEFAULTS));
+            }
+            lyd_free_all(dup);
+        }
+        lyd_free_all(top);
+        lyd_free_all(vtree);
+        for (i = 0; i < 6; i++) {
+            free(a[i]);
+        }
+        ly_err_clean(ctx, NULL);
+        rc = LY_SUCCESS;
     } else if (!strcmp(entry, "pattern") && (nf >= 4)) {
         size_t pl;
         char *pat = get_input(c->f[2], &pl);
@@ -1105,8 +1221,10 @@ run_case(struct shard *S, struct vcase *c, int nf)
     ly_err_clean(ctx, NULL);
     dict_stat(ctx, &dict1, &ref1);
     if (!(module_entry && !rc) && ((dict1 != dict0) || (ref1 != ref0))) {
-        printf("!dict-strings-left=%d/refs=%lld ", (int)(dict1 - dict0), (long long)(ref1 - ref0));
-        S->blamed = 1;
+        /* references can also be held by the context itself (they are released by ly_ctx_destroy()): the context is
+         * destroyed within this case and only strings that are still referenced THEN are left behind by the call */
+        printf("dictdelta=%d/refs=%lld ", (int)(dict1 - dict0), (long long)(ref1 - ref0));
+        S->suspect = 1;
     }
     heap1 = __sanitizer_get_current_allocated_bytes ? __sanitizer_get_current_allocated_bytes() : 1;
     heap_grew = (heap1 > heap0) && !(module_entry && !rc);
@@ -1198,7 +1316,7 @@ main(void)
             }
             ++S.cases;
             run_case(&S, &c, nf);
-            if (S.dirty || S.blamed) {
+            if (S.dirty || S.blamed || S.suspect) {
                 /* a module was loaded, or the case left strings / memory behind: the context is destroyed within this
                  * case, so that what the destruction finds (strings still referenced) belongs to this case and the next
                  * cases start from a clean context */
